@@ -756,7 +756,19 @@ class Driver:
                     sk.settimeout(2.0)
                     sk.connect(('\0' + self.daemon.path) if self.daemon.abstract else self.daemon.path)
                     data = bytes.fromhex(a.get('hex', ''))
-                    if data:
+                    if a.get('flood'):
+                        # as much as the bus will take of `flood` repetitions, never reading what it answers
+                        sk.setblocking(False)
+                        blob = data * 400
+                        sent_total = 0
+                        t0 = time.time()
+                        while sent_total < len(data) * a['flood'] and time.time() - t0 < 1.5:
+                            try:
+                                sent_total += sk.send(blob)
+                            except (BlockingIOError, InterruptedError):
+                                time.sleep(0.02)
+                        sk.setblocking(True)
+                    elif data:
                         sk.sendall(data)
                     if a.get('keep'):
                         self.kept.append(sk)
@@ -796,7 +808,32 @@ class Driver:
                     break
                 self.run_round({'ops': {str(owner): [{'k': 'rel', 'n': n}, {'k': 'query', 'q': 'queued', 'n': n}]}})
 
+    def daemon_cpu_ticks(self):
+        try:
+            f = open('/proc/%d/stat' % self.daemon.pid).read().rsplit(')', 1)[1].split()
+            return int(f[11]) + int(f[12])          # utime + stime, in clock ticks
+        except (OSError, IndexError, ValueError):
+            return None
+
+    def idle_cpu(self):
+        """processor time the daemon burns while nobody asks it anything (every connection still open, nothing being
+        written or read by the driver): two windows, the quieter one counts (work in progress ends, a spin does not)"""
+        tick_ms = 1000.0 / os.sysconf('SC_CLK_TCK')
+        best = None
+        for _ in range(2):
+            a = self.daemon_cpu_ticks()
+            time.sleep(0.3)
+            b = self.daemon_cpu_ticks()
+            if a is None or b is None:
+                return None
+            used = int((b - a) * tick_ms)
+            best = used if best is None else min(best, used)
+            if best * 4 <= 300:
+                break
+        return best
+
     def finish(self):
+        idle = self.idle_cpu() if self.daemon.alive() else None
         for sk in self.kept:
             sk.close()
         for st in self.slots.values():
@@ -808,6 +845,9 @@ class Driver:
             while time.time() - t0 < 3.0 and self.daemon.nfds() != self.base_fds:
                 time.sleep(0.01)
             fin = {'e': 'Final', 'fdleak': self.daemon.nfds() - self.base_fds, 'stublog': []}
+            if idle is not None:
+                fin['idlecpu'] = idle          # ms of processor time in a 300 ms window of silence
+                fin['idlewin'] = 300
             if self.actdir:
                 t0 = time.time()
                 want = {bytes(d['n']).decode(): d['k'] for d in self.daemon_starts()}
